@@ -24,13 +24,17 @@ static GENERATE_TIMEOUTS: std::sync::atomic::AtomicUsize = std::sync::atomic::At
 /// `Err(payload)`: panicked; `Ok(Err(text))`: rejected (or, with text "Timeout", did not return
 /// within the real-time limit: the thread is abandoned; that is C07's subject, the grammar is skipped).
 fn isolated_generate(text: &str) -> std::thread::Result<Result<kiki::RustSrc, String>> {
+    isolated_generate_keys(text, (0, 0))
+}
+
+fn isolated_generate_keys(text: &str, keys: (u64, u64)) -> std::thread::Result<Result<kiki::RustSrc, String>> {
     let text = text.to_string();
     let (tx, rx) = std::sync::mpsc::channel::<GenResult>();
     let tx2 = tx.clone();
     let h = std::thread::Builder::new()
         .stack_size(64 << 20)
         .spawn(move || {
-            TL_KEYS.with(|k| k.set(Some((0, 0))));
+            TL_KEYS.with(|k| k.set(Some(keys)));
             let r = catch_unwind(AssertUnwindSafe(|| kiki::generate(&text).map_err(|e| format!("{:?}", e))));
             let _ = tx.send(Some(r));
         })
@@ -282,6 +286,39 @@ fn main() {
                 // the same text on the long-lived thread (history of at most 8 earlier texts)
                 if hist.texts.len() >= 8 {
                     hist = HistoryThread::spawn();
+                }
+                // the same text on a fresh thread under other hash keys: if the emission differs from
+                // the canonical one (C14's subject), that parser is workload too
+                if let Fate::Accepted = fate {
+                    let mut krng = Rng::derive(seed, &[ENGINE_B, k, 0x5EED]);
+                    let keys = (krng.next_u64(), krng.next_u64());
+                    if let Ok(Ok(src_s)) = isolated_generate_keys(&text, keys) {
+                        let canon = fs::read_to_string(dir.join("g.rs")).unwrap_or_default();
+                        if canon != src_s.0 {
+                            let sdir = out.join(format!("g{k}s"));
+                            fs::create_dir_all(&sdir).expect("mkdir");
+                            for f in ["glue.rs", "model.json", "src.kiki", "main.rs"] {
+                                fs::copy(dir.join(f), sdir.join(f)).expect("copy");
+                            }
+                            fs::write(sdir.join("g.rs"), &src_s.0).expect("write g.rs");
+                            fs::write(
+                                sdir.join("keys.json"),
+                                J::Arr(vec![J::Int(keys.0 as i128), J::Int(keys.1 as i128)]).to_string(),
+                            )
+                            .expect("write keys");
+                            history_variants += 1;
+                            entries.push(
+                                J::obj()
+                                    .set("item", J::Int((k + 6_000_000) as i128))
+                                    .set("family", J::str(&format!("{}@hash-keys", g.family)))
+                                    .set("nts", J::uz(nn))
+                                    .set("terms", J::uz(nt))
+                                    .set("rules", J::uz(nr))
+                                    .set("fate", J::str("accepted"))
+                                    .set("dir", J::str(&sdir.to_string_lossy())),
+                            );
+                        }
+                    }
                 }
                 if (k as usize) >= gen::N_REPO_EXAMPLES {
                     // half of the time the history contains revisions of this very grammar (the
@@ -752,7 +789,24 @@ fn main() {
                 .iter()
                 .filter_map(|t| t.as_str().map(|s| s.to_string()))
                 .collect();
-            let fate = if history.is_empty() {
+            let keys: Option<(u64, u64)> = j.get("generation_keys").and_then(|x| x.as_arr()).and_then(|a| {
+                if a.len() == 2 {
+                    Some((a[0].as_u64()?, a[1].as_u64()?))
+                } else {
+                    None
+                }
+            });
+            let fate = if let Some(keys) = keys {
+                // regenerate under the recorded hash keys
+                let canon_fate = emit(&g, &text, Path::new(&out));
+                match (canon_fate, isolated_generate_keys(&text, keys)) {
+                    (Fate::Accepted, Ok(Ok(src))) => {
+                        fs::write(Path::new(&out).join("g.rs"), &src.0).expect("write g.rs");
+                        Fate::Accepted
+                    }
+                    (f, _) => f,
+                }
+            } else if history.is_empty() {
                 emit(&g, &text, Path::new(&out))
             } else {
                 // regenerate under the recorded call history: the earlier texts first, on one thread
